@@ -1,7 +1,7 @@
 """Shared by harness/c13.py and harness/c14.py: building tiny analyzers of every class, canonical
 hashing of results, observation of single reads from the outside (getter invocation log by wrapping
 the descriptors' getters, `__dict__` / slot / cached-result / input hashes before and after)."""
-import hashlib, warnings, importlib, functools
+import hashlib, warnings, importlib, functools, io, contextlib
 import numpy as np
 import translate_c13 as T13
 import common
@@ -303,9 +303,15 @@ class Snap:
         self.inputs = [hv(w) for w in watched] + ([hv(d['input'])] if 'input' in d and d['input'] is not None else [])
 
 
+def quiet():
+    """nitime prints warnings with print(); keep the check's output readable"""
+    return contextlib.redirect_stdout(io.StringIO())
+
+
 def read_result(obj, name):
     try:
-        return getattr(obj, name), None
+        with quiet():
+            return getattr(obj, name), None
     except RecursionError:
         return None, 'RecursionError'
     except Exception as e:  # noqa
